@@ -1,2 +1,6 @@
 import PanqecVerif.Model.Bits
 import PanqecVerif.Model.Code
+import PanqecVerif.Model.Mask
+import PanqecVerif.Proofs.Bits
+import PanqecVerif.Proofs.ValidCode
+import PanqecVerif.Properties.C03
